@@ -538,7 +538,9 @@ class Interp:
             return self.truth(ops.compare(self, "Eq", value, self.eval(pat.value, frame)))
         if isinstance(pat, ast.MatchSingleton):
             if isinstance(value, Sym):
-                raise Unsupported("match of a symbolic value against None / True / False")
+                if pat.value is None:
+                    return False            # a symbolic number / truth value is never None
+                raise Unsupported("match of a symbolic value against True / False")
             return value is pat.value
         if isinstance(pat, ast.MatchAs):
             if pat.pattern is not None and not self.match_pattern(pat.pattern, value, frame):
